@@ -221,6 +221,18 @@ def make_cases(ctx):
                         yield "range-%s-%d%d-%d%d" % (
                             role, tmin[1], tmax[1], omin[1], omax[1]), dict(
                             role=role, range=[tmin, tmax, omin, omax])
+                        # the same with the key exchange pinned when the
+                        # version comes out below what the client offered
+                        # (the RSA premaster carries the *offered* version)
+                        want = min(tmax, omax)
+                        offered = tmax if role == "tl_client" else omax
+                        if want <= (3, 3) and want < offered:
+                            for kx in ("rsa", "dhe_rsa"):
+                                yield "range-%s-%d%d-%d%d-%s" % (
+                                    role, tmin[1], tmax[1], omin[1], omax[1],
+                                    kx), dict(
+                                    role=role, kx=kx,
+                                    range=[tmin, tmax, omin, omax])
     # negatives
     for role in ("tl_client", "tl_server"):
         for j in range(ctx.pick(8, 60)):
@@ -709,8 +721,11 @@ def run_range(ctx, cid, P):
     tmin, tmax, omin, omax = (tuple(x) for x in P["range"])
     want = min(tmax, omax)
     ts_ = pair.settings(minVersion=tmin, maxVersion=tmax)
+    if P.get("kx"):
+        ts_.keyExchangeNames = [P["kx"]]
     link = net.Link()
-    key = {"role": role, "feat": "version_range",
+    key = {"role": role, "feat": "version_range" + (
+        "+" + P["kx"] if P.get("kx") else ""),
            "tl": "%s-%s" % (pair.VNAME[tmin], pair.VNAME[tmax]),
            "ossl": "%s-%s" % (pair.VNAME[omin], pair.VNAME[omax])}
     W = {"case": cid}
@@ -719,6 +734,8 @@ def run_range(ctx, cid, P):
         conn = TLSConnection(sock)
         octx = osslpeer.context(True, omin, omax, cert=KEYS["rsa"][0],
                                 key=KEYS["rsa"][1])
+        if P.get("kx") == "dhe_rsa":
+            octx.load_dh_params(dh_params_file())
         o = osslpeer.OsslEnd(link, "server", octx)
         gen = conn.handshakeClientCert(settings=ts_, async_=True)
     else:
